@@ -1,4 +1,5 @@
 from ._potential_form import _Check_Call
+from ._common import Potential_Form_Exception
 
 
 class _Python_Potential_Function(object):
@@ -26,5 +27,12 @@ class _Python_Potential_Function(object):
   
   def __call__(self, *args):
     self._check_call(*args)
-    return self._pyfunc(*args)
+    try:
+      return self._pyfunc(*args)
+    except TypeError as e:
+      if not self._potential_form_tuple.signature.is_varargs:
+        raise
+      # The number of arguments of a function declared with *args is not known to the check above
+      raise Potential_Form_Exception("'{name}{args}' : {msg}".format(
+        name = self._potential_form_tuple.signature.label, args = self._check_call.how_used(*args), msg = e))
 
